@@ -427,8 +427,11 @@ def suite_fault(binf, tier, rng):
                         rd = a["own"][("read", key)]
                         if rd[0] != "ok":
                             fail(f"after the failed call the key is visible but unreadable: {str(rd)[:140]}"); continue
+                # (a temp file left behind by a failed call is NOT a violation: the property speaks of the content and index
+                #  areas only, and in the async flavours the blocking task unlinks it after the answer is sent, so whether
+                #  the harness process still sees it is a race — counted for the evidence file, never alarmed on)
                 if kind in ("write", "stream", "write_hash", "copy") and not final_ok and t == len(ops) - 1 and a["tmp"]:
-                    fail(f"a temp file of the failed call remains: {a['tmp']}"); continue
+                    out["dist"]["tmp_left_after_failed_call(info)"] = out["dist"].get("tmp_left_after_failed_call(info)", 0) + 1
     return out
 
 def suite_fault_retry(binf, tier, rng):
